@@ -236,7 +236,7 @@ func histVerdicts(ops []histOp) []string {
 			// detached by t.New - it concerns those sets only)
 			k0 := -1
 			for j := 0; j < k; j++ {
-				if isExecKind(ops[j].kind) && targetNS[j] == ns && run.results[j] != "badop" {
+				if isExecKind(ops[j].kind) && targetNS[j] == ns && run.results[j] != "badop" && !isDetached(ops[j].h, j) {
 					k0 = j
 					break
 				}
@@ -339,7 +339,7 @@ func histVerdicts(ops []histOp) []string {
 			// after any execution in the name space every Parse must fail
 			late := false
 			for j := 0; j < k; j++ {
-				if isExecKind(ops[j].kind) && targetNS[j] == ns && run.results[j] != "badop" {
+				if isExecKind(ops[j].kind) && targetNS[j] == ns && run.results[j] != "badop" && !isDetached(ops[j].h, j) {
 					late = true
 				}
 			}
@@ -441,6 +441,11 @@ func genPropHistories(c *caseWriter, stream string, quick bool) {
 			emitH(append(append([]histOp{}, base...), histOp{kind: "L", h: 0, name: a}, histOp{kind: "X", h: 0}, histOp{kind: "S", h: 1, name: a},
 				histOp{kind: "P", h: 1, text: late}, histOp{kind: "P", h: 2, text: late}, histOp{kind: "Y", h: 0, name: a}, histOp{kind: "X", h: 0}))
 		}
+		// the root name redefined through t.New BEFORE anything was executed: handle 0 is detached (a set of its own),
+		// executing through it freezes that set only; the live set (handles 1..) can still be parsed and then executed
+		// (thorough-tier false alarm of the frozen oracle, hist07#8909: kept as a directed case)
+		emitH([]histOp{{kind: "N", name: "main"}, {kind: "S", h: 0, name: "main"}, {kind: "P", h: 1, text: d}, {kind: "Y", h: 0, name: "h"}, {kind: "X", h: 0},
+			{kind: "S", h: 1, name: "st"}, {kind: "P", h: 2, text: "{{define \"st\"}}m{{end}}"}, {kind: "Y", h: 2, name: "st"}, {kind: "X", h: 1}, {kind: "P", h: 1, text: "late"}})
 		// clone, execute the clone, then the original, late parses on both
 		emitH(append(append([]histOp{}, base...), histOp{kind: "C", h: 0}, histOp{kind: "X", h: 1}, histOp{kind: "P", h: 1, text: "late"}, histOp{kind: "X", h: 0},
 			histOp{kind: "P", h: 0, text: "{{define \"h\"}}changed{{end}}"}, histOp{kind: "X", h: 1}, histOp{kind: "X", h: 0}, histOp{kind: "C", h: 0}))
